@@ -26,6 +26,10 @@ class OrdUnknown(Exception):
     pass
 
 
+class OrdDeviation(OrdUnknown):
+    """A construct that is understood and deviates from ranking by the agents' cost (e.g. another sort key)."""
+
+
 @dataclass(frozen=True)
 class L:
     src: str
@@ -179,7 +183,8 @@ class Evaluator:
         key = kws.get("key")
         if not (isinstance(key, ast.Lambda) and isinstance(key.body, ast.Attribute) and key.body.attr == "cost"
                 and isinstance(key.body.value, ast.Name) and key.body.value.id == key.args.args[0].arg):
-            raise OrdUnknown(f"{fi.name}: sort key `{norm(key) if key is not None else None}` is not the agent cost")
+            raise OrdDeviation(f"{fi.name}: sort key `{norm(key) if key is not None else None}` is not the agent's cost "
+                               f"(agents whose costs differ can compare equal or in another order)")
         rev = kws.get("reverse")
         r = False
         if rev is not None:
@@ -298,7 +303,7 @@ class Evaluator:
                     src = self.expr(fi, a0.generators[0].iter, env)
                     if isinstance(src, L) and src.window == ("ALL",) and src.order == "ORIG":
                         return L(src.src, "idx", "ASC", ("ALL",), True)
-                raise OrdUnknown(f"{fi.name}: argsort of `{norm(a0, 50)}` is not argsort of the costs")
+                raise OrdDeviation(f"{fi.name}: argsort of `{norm(a0, 50)}` is not argsort of the agents' costs")
             if d in ("np.flip", "numpy.flip") and len(c.args) == 1:
                 v = self.expr(fi, c.args[0], env)
                 if isinstance(v, L):
